@@ -708,6 +708,7 @@ pub fn gen_inv(rng: &mut Rng, tree: &Tree, docs: &mut Docs, focus: Focus, main_s
             style.pre_tab = Some(*rng.pick(&[0usize, 1, 3, 4, 8]));
         }
     }
+    let debug_ok = debug_output_is_small(tree, stdin.as_ref().map(|b| b.0.as_slice()));
     Inv {
         shape,
         style,
@@ -719,7 +720,43 @@ pub fn gen_inv(rng: &mut Rng, tree: &Tree, docs: &mut Docs, focus: Focus, main_s
         shim_seed: rng.next_u64() >> 1,
         readdir: rng.pick(&["perm", "perm", "perm", "sorted", "reverse", "native"]).to_string(),
         env: gen_env(rng),
+        debug: if rng.chance(0.04) && debug_ok { *rng.pick(&[1u8, 2, 3, 5, 6, 7]) } else { 0 },
     }
+}
+
+/// the debug options dump the whole syntax tree / layout document: only for small, shallow worlds
+/// (a dump of a 2 MiB file or of 2000 nesting levels tests the Debug implementations of the
+/// dependencies, not the front-end)
+fn debug_output_is_small(tree: &Tree, stdin: Option<&[u8]>) -> bool {
+    fn shallow(b: &[u8]) -> bool {
+        let mut depth = 0i32;
+        for &c in b {
+            match c {
+                b'(' | b'[' | b'{' => {
+                    depth += 1;
+                    if depth > 60 {
+                        return false;
+                    }
+                }
+                b')' | b']' | b'}' => depth -= 1,
+                _ => {}
+            }
+        }
+        true
+    }
+    let mut total = stdin.map(|b| b.len()).unwrap_or(0);
+    if !stdin.map(shallow).unwrap_or(true) {
+        return false;
+    }
+    for n in tree.values() {
+        if let Node::File(b) = n {
+            total += b.0.len();
+            if !shallow(&b.0) {
+                return false;
+            }
+        }
+    }
+    total < 48 * 1024
 }
 
 /// a few environment variables a front-end might be tempted to look at
@@ -794,7 +831,7 @@ fn gen_wraparound_case(seed: u64, profile: &str, params: &GenParams) -> Case {
             paths.push(name);
         }
         let mode = if params.focus == Focus::C14 { Mode::Check } else { Mode::Inplace };
-        let inv = Inv { shape: Shape::Files { mode, paths }, style: StyleArgs::default(), verbosity: 1, check_after: false, cwd: "w".into(), stdin: None, plan: Vec::new(), shim_seed: 1, readdir: "sorted".into(), env: Vec::new() };
+        let inv = Inv { shape: Shape::Files { mode, paths }, style: StyleArgs::default(), verbosity: 1, check_after: false, cwd: "w".into(), stdin: None, plan: Vec::new(), shim_seed: 1, readdir: "sorted".into(), env: Vec::new(), debug: 0 };
         return Case { seed, profile: "nofault".to_string(), tree, steps: vec![Step::Inv(inv)] };
     }
     if rng.chance(0.25) {
@@ -819,7 +856,7 @@ fn gen_wraparound_case(seed: u64, profile: &str, params: &GenParams) -> Case {
         } else {
             Shape::Files { mode: if check { Mode::Check } else { Mode::Inplace }, paths }
         };
-        let inv = Inv { shape, style: StyleArgs::default(), verbosity: 1, check_after: false, cwd: ".".into(), stdin: None, plan: Vec::new(), shim_seed: rng.next_u64() >> 1, readdir: "sorted".into(), env: Vec::new() };
+        let inv = Inv { shape, style: StyleArgs::default(), verbosity: 1, check_after: false, cwd: ".".into(), stdin: None, plan: Vec::new(), shim_seed: rng.next_u64() >> 1, readdir: "sorted".into(), env: Vec::new(), debug: 0 };
         return Case { seed, profile: profile.to_string(), tree, steps: vec![Step::Inv(inv)] };
     }
     let k = *rng.pick(&[65usize, 129, 256, 257, 257]);
@@ -859,6 +896,7 @@ fn gen_wraparound_case(seed: u64, profile: &str, params: &GenParams) -> Case {
         shim_seed: rng.next_u64() >> 1,
         readdir: "sorted".into(),
         env: Vec::new(),
+        debug: 0,
     };
     Case { seed, profile: profile.to_string(), tree, steps: vec![Step::Inv(inv)] }
 }
